@@ -30,16 +30,30 @@ ProjFlip(e, f) ==
   ELSE <<e.t, e.k, e.n, e.v, e.i, <<>>>>
 
 JobEvents == {"start", "end", "raise", "cancel", "cancel-done"}
-(* a job that starts and is cancelled within one instant has not run: in a *)
-(* tie between a failure and the completion that releases it, the nested   *)
-(* tree may still start it (cancellation travels one level per wake-up)    *)
-(* where the flat graph does not                                           *)
-ZeroRun(ev, n) == \E i, j \in 1..Len(ev) : /\ ev[i].k = "start" /\ ev[i].n = n
-                                            /\ ev[j].k = "cancel-done" /\ ev[j].n = n /\ ev[i].t = ev[j].t
+(* Ties.  When a run fails, what happens inside its last instant depends on  *)
+(* the order in which the loop serves the events of that instant, and the   *)
+(* nested tree and the flat graph legitimately differ there (cancellation   *)
+(* travels one tree level per wake-up): a job released in that instant may  *)
+(* or may not start (and, if it takes no time, finish); a job due to end in *)
+(* that instant may end or be cancelled.  So, in the last instant of a      *)
+(* failed run: jobs that start there are left out, and for the others only  *)
+(* the fact that they are over is compared, not how.  Which of several      *)
+(* simultaneous critical exceptions comes out is not compared either (the   *)
+(* identity rule is C04's, checked on every trace).                         *)
+TopEv(ev)   == ev[CHOOSE i \in 1..Len(ev) : ev[i].k = "top"]
+Failed(ev)  == TopEv(ev).v # "true"
+LastT(ev)   == TopEv(ev).t
+StartT(ev, n) == IF \E i \in 1..Len(ev) : ev[i].k = "start" /\ ev[i].n = n
+                 THEN ev[CHOOSE i \in 1..Len(ev) : ev[i].k = "start" /\ ev[i].n = n].t ELSE -1
 ProjFlat(e, map, ev) ==
-  IF e.k \in JobEvents /\ ZeroRun(ev, e.n) THEN <<>>
-  ELSE IF e.k \in JobEvents THEN <<e.t, e.k, map[e.n], "-", 0, <<>>>>
-  ELSE IF e.k = "top" THEN <<e.t, "top", 1, e.v, IF e.i > 0 THEN map[e.i] ELSE e.i, <<>>>>
+  IF e.k \in JobEvents THEN
+       (IF Failed(ev) /\ StartT(ev, e.n) = LastT(ev) THEN <<>>
+        ELSE IF Failed(ev) /\ e.t = LastT(ev) THEN
+             (IF e.k = "cancel" THEN <<>>
+              ELSE IF e.k \in {"end", "raise", "cancel-done"} THEN <<e.t, "over", map[e.n], "-", 0, <<>>>>
+              ELSE <<e.t, e.k, map[e.n], "-", 0, <<>>>>)
+        ELSE <<e.t, e.k, map[e.n], "-", 0, <<>>>>)
+  ELSE IF e.k = "top" THEN <<e.t, "top", 1, e.v, 0, <<>>>>
   ELSE <<>>
 
 ProjAll(ev, mode, f, map) ==
